@@ -75,8 +75,15 @@ def long_case(rng, waves):
     tps = rng.choice([5, 10])
     R = 64
     pipes, steps = [], []
+    # L: small for a long time (survives the early overflows), then the heaviest container of the pool
+    quiet = int(waves * 2.2)
+    pipes.append({"pid": "L", "prio": "BATCH_PIPELINE", "ops": [
+        {"parents": [], "segs": [{"cpu": (quiet + 0.5) / tps, "law": "const", "mem": R * 0.02, "read": 0.0}]},
+        {"parents": [0], "segs": [{"cpu": (waves * 2 + 0.5) / tps, "law": "const", "mem": R * 0.55, "read": 0.0}]}]})
     for wv in range(waves):
         asg = []
+        if wv == 0:
+            asg.append({"pool": 0, "cpu": 1, "ram": R * 1.0, "ops": [[0, 0], [0, 1]]})
         for j in range(rng.randint(3, 6)):
             i = len(pipes)
             io_t = rng.randint(4, 9) + 0.5
